@@ -147,7 +147,7 @@ pub struct EncodingKey {
     pub id: u64,
 }
 
-fn bytes_id(b: &[u8]) -> u64 {
+pub fn bytes_id(b: &[u8]) -> u64 {
     // identity of a key given by bytes: first two bytes and the length (injective on the
     // 1-2 byte keys the harnesses use)
     let b0 = if !b.is_empty() { b[0] as u64 } else { 0 };
